@@ -149,6 +149,21 @@ def iso_ok(t, tol):
     return bool(np.max(np.abs(G - np.eye(G.shape[0]))) < tol)
 
 
+def rank_deficient_bond(tn):
+    """does some two-tensor bond carry an exactly vanishing weight on one side (plain numpy)"""
+    for ix, tids in tn.ind_map.items():
+        if len(tids) != 2:
+            continue
+        for tid in tids:
+            t = tn.tensor_map[tid]
+            if t.inds.count(ix) != 1:
+                continue
+            a = np.moveaxis(np.asarray(t.data), t.inds.index(ix), 0).reshape(t.ind_size(ix), -1)
+            if np.linalg.matrix_rank(a.astype(np.complex128), tol=1e-5 * max(1.0, float(np.max(np.abs(a), initial=0.0)))) < a.shape[0]:
+                return True
+    return False
+
+
 class Case:
     def __init__(self, rng, tid, dtype, geom):
         self.rng, self.tid, self.dtype, self.geom = rng, tid, dtype, geom
@@ -219,11 +234,23 @@ class Case:
             val = np_denote(tn_tensors(tn) + self.gauge_tensors(), self.out, tn.exponent)
             mag = float(np.max(np.abs(val), initial=0.0)) * 10.0 ** self.scale
             single = np.dtype(self.dtype) in (np.dtype("float32"), np.dtype("complex64"))
-            if mag * (2e-6 if single else 1e-12) > 0.1:
+            # "up to floating point": the tolerance follows the magnitude (ill-conditioned random gauges amplify the
+            # rounding of single precision to ~1e-4 relative); a value the dtype cannot resolve to one unit is not snapped
+            illc = getattr(self, "illcond", False) or name.startswith(("gauge_all_random", "insert_gauge", "gauge_all"))
+            atol = max(self.tol * (50 if single else 1000), mag * ((1e-3 if illc else 2e-5) if single else 1e-9))
+            if atol > 0.25:
                 self.imprecise += 1
                 self.tn = tn
                 return
-            s = snap_garray(val, self.tol * (50 if single else 1000), 10.0 ** self.scale)
+            if single and not np.all(np.isfinite(val)) and name.startswith(("gauge_local", "gauge_all_simple", "gauge_all", "gauge_all_simple_(gauges)")) \
+                    and rank_deficient_bond(tn0):
+                # single precision cannot carry the (1e-12 smudged) inverse of an exactly vanishing bond weight through
+                # several simple-update sweeps: overflow with numpy RuntimeWarnings - a floating point breakdown on an
+                # input with a non-invertible bond, counted, not judged (double precision results are judged)
+                self.breakdown = getattr(self, "breakdown", 0) + 1
+                self.dead = True
+                return
+            s = snap_garray(val, atol, 10.0 ** self.scale)
             if s == OFFGRID:
                 self.dead = True        # (whatever follows would only repeat this observation)
                 rec["ongrid"] = False
@@ -236,6 +263,8 @@ class Case:
             rec["claims_ok"] = [bool(x) for x in (iso_ok(t, 1e-3 if single else 1e-7) for t in tn.tensors) if x is not None]
             if extra:
                 rec.update(extra(tn0, tn))
+            if name.startswith(("gauge_all_random", "insert_gauge", "gauge_all")):
+                self.illcond = True     # non-unitary random gauges: later rounding is amplified by their condition number
             self.tn = tn
         except Exception as ex:  # noqa
             if reject_ok or (type(ex).__name__ == "LinAlgError" and "infs or NaNs" in str(ex)):
@@ -589,6 +618,7 @@ def run(ctx):
     ctx.extra["rewrites_exercised"] = names
     ctx.extra["imprecise_skipped"] = imprecise
     ctx.extra["loud_numerical_refusals"] = sum(getattr(c_, "rejected", 0) for c_ in cases)
+    ctx.extra["single_precision_breakdowns_on_singular_bonds"] = sum(getattr(c_, "breakdown", 0) for c_ in cases)
     ctx.sample({"trace": [{k: v for k, v in r_.items() if k not in ("net", "result")} for r_ in recs[:4]]})
     fails = ctx.validate("C04_Trace", "Trace.cfg", recs, name="rewrites", ntraces=ncases, chunk=5000)
     ctx.clauses.update(["Returns", "OnGrid", "ValuePreserved", "OuterSame", "IsoClaimSound", "BondNotLarger", "CanonicalRegion",
